@@ -73,7 +73,7 @@ PROPS["C11"] = dict(
 
 
 PROPS["C09"] = dict(
-    hosts={"desc": ["c09.rs"]},
+    hosts={"desc": ["c09.rs"], "registry": ["c09b.rs"]},
     cfgs=["prometheus_verif_map"],
     jobs=6,
     harnesses={
@@ -81,8 +81,10 @@ PROPS["C09"] = dict(
         "c09_label_name_regex_3chars": dict(cap=900),
         "c09_desc_new_checks_names": dict(cap=1200),
         "c09_desc_new_rejects_duplicate_label_names": dict(cap=1800),
-        "c09_desc_new_two_const_one_variable": dict(cap=1800),
+        "c09_desc_new_two_const_one_variable": dict(cap=5400, tier="thorough"),
         "c09_histogram_rejects_le": dict(cap=1800),
+        "c09_registry_prefix_and_label_names_validated": dict(cap=1800),
+        "c09_registry_common_label_clash_refused": dict(cap=1800),
     },
     functions=["desc::is_valid_metric_name", "desc::is_valid_label_name", "desc::is_valid_ident", "Desc::new", "histogram::check_bucket_label", "HistogramCore::new"],
     bounds="names of <= 3 arbitrary Unicode scalar values (unit level), <= 2 in Desc::new; label-name pools of 6 names; <= 1 const + 2 variable labels",
@@ -238,6 +240,69 @@ PROPS["C17"] = dict(
     assumptions=["std::fmt::format stubbed (the lower-cased type name is not the subject)", "<f64 as Display>::fmt stubbed by a bit-pattern marker", "text::find_first_occurence stubbed by a naive byte search (memchr uses cpuid)"],
 )
 
+
+
+PROPS["C10"] = dict(
+    hosts={"vec": ["c10.rs"]},
+    cfgs=["prometheus_verif_map"],
+    jobs=3,
+    harnesses={
+        "c10_racing_first_requests_share_the_child": dict(cap=2400),
+        "c10_remove_then_recreate_starts_from_zero": dict(cap=2400),
+        "c10_reset_then_recreate_starts_from_zero": dict(cap=2400, tier="thorough"),
+        "c10_lookup_vs_remove_and_recreate": dict(cap=2400),
+    },
+    functions=["MetricVecCore::get_metric_with_label_values", "MetricVecCore::get_or_create_metric", "MetricVecCore::delete_label_values", "MetricVecCore::reset", "MetricVecCore::hash_label_values", "GenericCounter::inc/inc_by/get"],
+    bounds="one label with a 1-byte symbolic value per thread; the gap between the two critical sections of get-or-create filled with one complete operation (or a fixed short sequence) of another thread: create same/other child + update, remove, reset, remove + recreate; unwind 5",
+    outside="interleavings inside a critical section (excluded by the borrow checker and the lock, which is trusted); more than one foreign operation sequence per gap beyond those listed; collect() racing (a single read-locked critical section); GaugeVec / HistogramVec (same generic MetricVecCore code)",
+    assumptions=["lock-granularity argument: every access to the children map is inside one RwLock critical section, so an execution is a sequence of critical sections; get-or-create is the only operation with two", "E4 injective FNV stub, E6 children map, Opts::describe stubbed by a literal descriptor, slice::sort -> insertion sort, parking_lot slow paths assume(false)"],
+)
+
+
+PROPS["C07"] = dict(
+    hosts={"registry": ["c07.rs"]},
+    cfgs=["prometheus_verif_map"],
+    jobs=3,
+    harnesses={
+        "c07_families_sorted_complete_any_order": dict(cap=2400),
+        "c07_prefix_and_common_labels_deterministic": dict(cap=2400),
+        "c07_same_name_samples_sorted_by_label_values": dict(cap=2400),
+    },
+    functions=["RegistryCore::gather", "RegistryCore::register"],
+    bounds="2-3 collectors returning literal families (1-3 samples, 0-1 labels), sample values symbolic u8; every iteration order of the collector map and of the registry-label map (E6, all n! orders for n <= 3); unwind 6",
+    outside="the collect() implementations of the library's own metric types (Value::collect / MetricVecCore::collect / HistogramCore::proto are one-sample constructions checked in C05/C08); more collectors or labels",
+    assumptions=["E6: collector map / label map are crate::verif_map with symbolic iteration order; BTreeMap is the sorted-array shim", "collectors are harness-defined and return families built from literals"],
+)
+PROPS["C14"] = dict(
+    hosts={"registry": ["c07.rs"]},
+    cfgs=["prometheus_verif_map"],
+    jobs=2,
+    harnesses={
+        "c14_counter_and_gauge_under_one_name": dict(cap=2400),
+        "c07_same_name_samples_sorted_by_label_values": dict(cap=2400),
+    },
+    functions=["RegistryCore::gather", "RegistryCore::register"],
+    bounds="two collectors of different kinds (counter, gauge) under one name with different const-label values, non-zero symbolic values, every iteration order of the collector map",
+    outside="more than two collectors; histogram/summary kinds (same merge code)",
+    assumptions=["E6 symbolic iteration order", "collectors are harness-defined and return families built from literals"],
+)
+
+
+PROPS["C04"] = dict(
+    hosts={"encoder_text": ["c04.rs"]},
+    jobs=5,
+    harnesses={
+        "c04_escape_string_2_bytes": dict(cap=1800),
+        "c04_escape_string_3_bytes": dict(cap=3600, tier="thorough"),
+        "c04_escape_string_multibyte": dict(cap=1800),
+        "c04_write_sample_layout": dict(cap=2400),
+        "c04_write_sample_no_labels": dict(cap=1800),
+    },
+    functions=["text::escape_string", "text::label_pairs_to_text", "text::write_sample"],
+    bounds="escape_string: every string of 2 (quick) / 3 (thorough) bytes over {backslash, quote, LF, CR, letter} and the 2-byte character e-acute next to each class, both modes; write_sample: 2 labels + additional label with 1-byte symbolic values, every f64 bit pattern as value (marker rendering), every i64 timestamp; unwind 10-20",
+    outside="the HELP/TYPE prologue and per-type layout of encode_impl (histogram +Inf bucket, _sum/_count), family order, encode/encode_utf8/encode_to_string agreement; longer strings; std's f64/i64 Display itself (assumed to round-trip with FromStr)",
+    assumptions=["text::find_first_occurence stubbed by a naive byte search (memchr uses cpuid)", "<f64 as Display>::fmt and <i64 as Display>::fmt stubbed by injective markers", "writer is a fixed 96-byte buffer implementing the crate's WriteUtf8"],
+)
 
 # ------------------------------------------------------------------------------------------------
 MANIFEST_TEXT = {}
